@@ -20,7 +20,7 @@ func init() {
 
 func runC09(c *core.Ctx) {
 	runFixtures(c, "valid", "drop", "fold")
-	c.Explain("Structural clauses of C09 decided from source on linux, windows and darwin builds of package hackpadfs/os: (R09.1) every call to a path-taking function of the standard os package receives, as each path operand, the first result of the name→OS-path mapping (rootedPath/toOSPath), at a point dominated by that call's nil-error edge — no raw name reaches the kernel; (R09.2) the mapping validates before it joins and joins path.Join(\"/\", root, name) in that order, so the result is root-prefixed; (R09.3) every non-error return of the reverse mapping returns the constant \".\" or a value tested by ValidPath on the way; (R09.4) the root-prefix test of the reverse mapping respects element boundaries (root+\"/\" or equality); (R09.5) every error produced by a standard os function or *os.File method leaves package os only through the translator that rewrites OS paths into FS-relative names; (R09.6) the exported reverse mapping refuses non-absolute paths before converting; (R09.7) no strings.Replace/ReplaceAll in package os deletes (replaces by the empty string) a non-constant pattern — the root's OS path is taken off a reported path with TrimPrefix only, so a name that contains the root's text again further down ('backup/data/x' under root 'data') is reported intact; (R09.8) a method of os.FS that builds a new os.FS (Sub) stores into every string field of the new value something derived from the receiver's same field — a volume name left at the constructor's default moves the view to another volume. (R09.9) no prefix cut off an OS path is admitted by a case-insensitive comparison; (R09.10) os.FS.Sub never stores the root \".\". (R09.11) relPath never answers a rooted name; (R09.12) = R07.1 under C09. (R09.13) separator parameters are used and no literal backslash is replaced; (R09.14) every Path/Old/New of a rebuilt os error is last stored from relPath. (R09.15) the error translator returns an error untranslated only for reasons in the error itself; (R09.16) nothing reachable from fromOSPath cleans the path. NOT claimed: ToOSPath∘FromOSPath = id (string arithmetic), volume handling on real Windows paths beyond these shapes.")
+	c.Explain("Structural clauses of C09 decided from source on linux, windows and darwin builds of package hackpadfs/os: (R09.1) every call to a path-taking function of the standard os package receives, as each path operand, the first result of the name→OS-path mapping (rootedPath/toOSPath), at a point dominated by that call's nil-error edge — no raw name reaches the kernel; (R09.2) the mapping validates before it joins and joins path.Join(\"/\", root, name) in that order, so the result is root-prefixed; (R09.3) every non-error return of the reverse mapping returns the constant \".\" or a value tested by ValidPath on the way; (R09.4) the root-prefix test of the reverse mapping respects element boundaries (root+\"/\" or equality); (R09.5) every error produced by a standard os function or *os.File method leaves package os only through the translator that rewrites OS paths into FS-relative names; (R09.6) the exported reverse mapping refuses non-absolute paths before converting; (R09.7) no strings.Replace/ReplaceAll in package os deletes (replaces by the empty string) a non-constant pattern — the root's OS path is taken off a reported path with TrimPrefix only, so a name that contains the root's text again further down ('backup/data/x' under root 'data') is reported intact; (R09.8) a method of os.FS that builds a new os.FS (Sub) stores into every string field of the new value something derived from the receiver's same field — a volume name left at the constructor's default moves the view to another volume. (R09.9) no prefix cut off an OS path is admitted by a case-insensitive comparison; (R09.10) os.FS.Sub never stores the root \".\". (R09.11) relPath never answers a rooted name; (R09.12) = R07.1 under C09. (R09.13) separator parameters are used and no literal backslash is replaced; (R09.14) every Path/Old/New of a rebuilt os error is last stored from relPath. (R09.15) the error translator returns an error untranslated only for reasons in the error itself; (R09.16) nothing reachable from fromOSPath cleans the path. (R09.17) directory entries handed out are wrapped so that Info() errors are translated. NOT claimed: ToOSPath∘FromOSPath = id (string arithmetic), volume handling on real Windows paths beyond these shapes.")
 	c.Assume("A2: standard os/path/filepath functions behave as documented")
 	c.RuleDoc("R09.1", "only mapped paths reach standard os calls, on the mapping's success edge")
 	c.RuleDoc("R09.2", "mapping = validate, then path.Join(\"/\", root, name)")
@@ -29,6 +29,7 @@ func runC09(c *core.Ctx) {
 	c.RuleDoc("R09.5", "standard os errors pass through the translator")
 	c.RuleDoc("R09.6", "FromOSPath requires an absolute path")
 	c.RuleDoc("R09.13", "the separator conversions use the separator they are given: no unused separator parameter, no literal backslash")
+	c.RuleDoc("R09.17", "directory entries handed out by package os are wrapped (their Info() error is translated)")
 	c.RuleDoc("R09.15", "the os error translator returns an error untranslated only for reasons in the error itself")
 	c.RuleDoc("R09.16", "the reverse mapping refuses unclean OS paths (no Clean)")
 	c.RuleDoc("R09.14", "every path field of an error rebuilt by the translator is passed through relPath on every path")
@@ -63,6 +64,7 @@ func runC09(c *core.Ctx) {
 		r09SeparatorIsAParameter(c, p)
 		r09EveryPathFieldTranslated(c, p)
 		r09TranslatorAlwaysTranslates(c, p)
+		r09EntriesAreWrapped(c, p)
 		// R09.12 (= R07.1): roots are joined with path.Join on validated names, never glued with "+"
 		{
 			va := newValidAnalysis(p)
@@ -87,6 +89,7 @@ func runC09(c *core.Ctx) {
 	c.Floor("R09.14", 3)
 	c.Floor("R09.15", 1)
 	c.Floor("R09.16", 1)
+	c.Floor("R09.17", 2)
 	c.Floor("R09.12", 5)
 }
 
@@ -1018,4 +1021,53 @@ func r09TranslatorAlwaysTranslates(c *core.Ctx, p *load.Program) {
 	visit(from, 0)
 	c.Check(badClean == "", "R09.16", "os.FS.fromOSPath|refuses-instead-of-cleaning", p.Pos(from.Pos()), "no Clean on the way from an OS path to a name",
 		fmt.Sprintf("%s normalises the OS path it maps back: \"/root/../x\" climbs out of the root and must be refused, not turned into the unrelated name \"x\" (the ValidPath test after a Clean can no longer fail)", badClean))
+}
+
+// r09EntriesAreWrapped (R09.17): a function of package os that returns a []DirEntry never returns the slice a stdlib os
+// call produced as it is: the entries' Info() does an lstat of the OS path later, and its error (the entry was removed
+// in between) would name the absolute OS path — the slice passes through a function of the package first (the wrapper
+// whose Info() translates the error).
+func r09EntriesAreWrapped(c *core.Ctx, p *load.Program) {
+	for _, fn := range pkgFuncs(p, "os") {
+		if fn.Blocks == nil || fn.Parent() != nil {
+			continue
+		}
+		res := fn.Signature.Results()
+		idx := -1
+		for i := 0; i < res.Len(); i++ {
+			if sl, ok := res.At(i).Type().Underlying().(*types.Slice); ok && strings.HasSuffix(types.Unalias(sl.Elem()).String(), "io/fs.DirEntry") {
+				idx = i
+			}
+		}
+		if idx < 0 {
+			continue
+		}
+		fromOS := false
+		bad := ""
+		for _, r := range ssax.Returns(fn) {
+			if len(r.Results) <= idx {
+				continue
+			}
+			v := resolveSpilled(r.Results[idx], r)
+			if ex, ok := v.(*ssa.Extract); ok {
+				if cl, ok := ex.Tuple.(*ssa.Call); ok {
+					if callee := ssax.StaticCallee(cl); callee != nil && callee.Pkg != nil && callee.Pkg.Pkg.Path() == "os" {
+						bad = p.Pos(r.Pos())
+					}
+				}
+			}
+		}
+		ssax.Instrs(fn, func(ins ssa.Instruction) {
+			if cl, ok := ins.(*ssa.Call); ok {
+				if callee := ssax.StaticCallee(cl); callee != nil && callee.Pkg != nil && callee.Pkg.Pkg.Path() == "os" && strings.Contains(callee.Name(), "ReadDir") {
+					fromOS = true
+				}
+			}
+		})
+		if !fromOS {
+			continue
+		}
+		c.Check(bad == "", "R09.17", fname(fn)+"|entries-wrapped", p.Pos(fn.Pos()), "the stdlib's entries are not returned as they are",
+			fmt.Sprintf("%s returns the stdlib's DirEntry values unchanged at %s: entries[i].Info() after the entry was removed fails with \"lstat /abs/os/path\" — an error from the OS that names the OS path, not the caller's", fname(fn), bad))
+	}
 }
